@@ -364,6 +364,7 @@ package protocol
 //@   option noframe
 //@   option only pre make alloc slice index
 //@   option upto "for i := range records {"
+//@   option allocbound recordsLength
 //@   modifies heap
 //@ property C05 C04
 // v1 wrapper with relative inner offsets (Kafka message-set documentation): the wrapper's own offset is the absolute offset
